@@ -293,11 +293,11 @@ type Node struct {
 	dialMu  chanMutex
 	wg      sync.WaitGroup
 
-	Consumed   []uint64
+	Consumed []uint64
 	// AckResolved: the acknowledgements the queue accepted (an exchange ended by its peer, not by its deadline)
 	AckResolved []AckInsert
-	AckInserts []AckInsert
-	Dead       bool
+	AckInserts  []AckInsert
+	Dead        bool
 }
 
 // dialRefused returns a client connection to target whose every connection attempt is refused.
@@ -409,11 +409,11 @@ type NodeOpts struct {
 // World is one complete in-process deployment.
 type World struct {
 	tapDelay atomic.Int64
-	T    *testing.T
-	mu   sync.Mutex
-	seq  int64
-	Dir  string
-	Auth wasp.AuthenticationHandler
+	T        *testing.T
+	mu       sync.Mutex
+	seq      int64
+	Dir      string
+	Auth     wasp.AuthenticationHandler
 
 	Nodes   []*Node
 	Clients []*Client
